@@ -436,11 +436,11 @@ func (usi *UnrotatedSegmentInfo) doBloomCheckForCols(timeFilteredBlocks map[uint
 				if cmi.Bf == nil {
 					continue
 				}
-				needleExists := cmi.Bf.TestString(entry)
+				needleExists := structs.BloomMayContainKey(cmi.Bf, entry)
 				if !needleExists && checkInOriginalKeys {
 					originalEntry, ok := originalBloomKeys[entry]
 					if ok {
-						needleExists = cmi.Bf.TestString(originalEntry)
+						needleExists = structs.BloomMayContainKey(cmi.Bf, originalEntry)
 					}
 				}
 				if needleExists {
